@@ -24,6 +24,10 @@ KA = "deploy-returned-before-deployed:event-of-redeploy-set-by-finishing-undeplo
 KB = "lazy-connector-not-undeployed:FutureConnector.undeploy-during-its-deploy"
 KD = "hang:event-of-failed-deployment-cleared-by-waiting-undeploy"
 KC = "undeploy_all-left-live:failed-wrapper-stays-in-dependants-of-wrapped"
+KH = "undeploy-returned-but-connector-live"
+KF = "undeploy-of-not-deployed:undeploy-woken-from-event-wait-acts-on-redeployed-incarnation"
+KG = "deploy-while-live:lazy-redeploy-overlaps-connector-awaiting-its-deferred-undeploy"
+KE = "undeploy-under-live-wrapper:finishing-undeploy-strips-dependants-edge-of-concurrent-redeploy"
 
 
 def gen_case(rng: random.Random, idx: int, single: bool | None = None) -> dict:
@@ -69,6 +73,16 @@ CORPUS = [
      "scripts": {"D": {"deploy": [[3, False], [1, True]], "undeploy_steps": 1}}, "prefix": [],
      "batch": [["deploy", "D"], ["undeploy", "D", 1], ["deploy", "D", 8]], "lseed": 0, "final_undeploy_all": False},
     # open finding: a wrapper whose own deploy fails stays among the dependants of the wrapped deployment
+    # an undeploy / undeploy_all issued INSIDE the deploy window of an eager deployment must undeploy it once the deploy has finished
+    {"idx": -7, "topo": "D", "deployments": {"D": {"kind": "base", "wraps": None, "lazy": False}},
+     "scripts": {"D": {"deploy": [[5, True]], "undeploy_steps": 1}}, "prefix": [],
+     "batch": [["deploy", "D", 0], ["undeploy", "D", 2]], "lseed": 0, "shuffle": False, "final_undeploy_all": False},
+    {"idx": -8, "topo": "D", "deployments": {"D": {"kind": "base", "wraps": None, "lazy": False}},
+     "scripts": {"D": {"deploy": [[5, True]], "undeploy_steps": 2}}, "prefix": [],
+     "batch": [["deploy", "D", 0], ["undeploy_all", None, 2]], "lseed": 0, "shuffle": False, "final_undeploy_all": False},
+    {"idx": -9, "topo": "WD", "deployments": {n: {"kind": "wrap" if w else "base", "wraps": w, "lazy": False} for n, w in TOPOS["WD"].items()},
+     "scripts": {"D": {"deploy": [[4, True]], "undeploy_steps": 1}}, "prefix": [],
+     "batch": [["deploy", "D", 0], ["undeploy", "D", 1], ["undeploy", "D", 3]], "lseed": 0, "shuffle": False, "final_undeploy_all": False},
     {"idx": -6, "topo": "WXD", "deployments": {n: {"kind": "wrap" if w else "base", "wraps": w, "lazy": False} for n, w in TOPOS["WXD"].items()},
      "scripts": {"W": {"deploy": [[1, False]]}}, "prefix": [], "batch": [["deploy", "W"], ["deploy", "X"]], "lseed": 93353735},
 ]
@@ -144,20 +158,25 @@ def monitor(case: dict, r: dict) -> list[tuple[str, str]]:
         if "undeploy-enter" in d and not ("deploy-exit" in d and d["deploy-exit"][0] < d["undeploy-enter"][0]):
             by_undeploy = any(op[1] == "ev-set" and op[2] == n and _is_undeploy_task(r, op[0])
                               for op in _ops_between(r, d["deploy-enter"][0], d["undeploy-enter"][0])) if "deploy-enter" in d else False
-            fails.append((KA if by_undeploy else "undeploy-of-not-deployed",
+            stale = _stale_woken_undeploy(ops, n, d.get("undeploy-task"))
+            fails.append((KA if by_undeploy else (KF if stale else "undeploy-of-not-deployed"),
                           f"{n} object {o}: undeploy() entered at {d['undeploy-enter'][0]} while its deploy() had not completed: {d}"))
         if "deploy-enter" in d:
             t = d["deploy-enter"][0]
             for o2, d2 in obj.items():
                 if o2 != o and d2["name"] == n and active_at(o2, t):
-                    key = (KB if o2 in lazy_race else "deploy-while-live")
+                    # the repaired FutureConnector.undeploy (3778dfe) defers the connector's undeploy until its deploy has finished, AFTER the
+                    # manager released the name: a re-deploy can overlap the old connector, which IS undeployed later (KG); before the repair
+                    # the old connector was never undeployed (KB)
+                    key = ((KG if "undeploy-enter" in d2 else KB) if o2 in lazy_race else "deploy-while-live")
                     fails.append((key, f"{n}: object {o} deployed at {t} while object {o2} is deploying/live"))
         if "undeploy-enter" in d:
             t = d["undeploy-enter"][0]
             for w in wrappers_of[n]:
                 for o2, d2 in obj.items():
                     if d2["name"] == w and live_at(o2, t):
-                        fails.append((K7, f"{n} undeployed at {t} while wrapper {w} (object {o2}) is live"))
+                        fails.append((KE if _edge_stripped_by_stale_undeploy(ops, n, w) else K7,
+                                      f"{n} undeployed at {t} while wrapper {w} (object {o2}) is live"))
     for q in r["requests"]:
         kind = q["req"][0]
         if "end" not in q:
@@ -198,6 +217,31 @@ def monitor(case: dict, r: dict) -> list[tuple[str, str]]:
                         key = KB if o in lazy_race else (KC if failed_wrapper else "undeploy_all-left-live")
                         fails.append((key, f"{d['name']} object {o} is live after undeploy_all returned"
                                       + (f" (failed wrappers still among its dependants: {failed_wrapper})" if failed_wrapper else "")))
+    # an undeploy(n) / undeploy_all that returns ok leaves no connector of an eager, never-wrapped-in-this-run deployment live, unless a deploy
+    # of it was requested after the undeploy request started (the dependants of such a deployment are {n} or {} — a set, not a counter)
+    wrapped_now = {o[2].split("<")[0] for o in ops if o[1] == "deps.add" and o[2].split("<")[0] != o[2].split("<")[1]}
+    for q in r["requests"]:
+        if q["req"][0] not in ("undeploy", "undeploy_all") or q.get("outcome") != "ok" or "end" not in q:
+            continue
+        names_q = [q["req"][1]] if q["req"][0] == "undeploy" else [nm for nm in deps]
+        for n in names_q:
+            if deps[n]["lazy"] or n in wrapped_now or deps[n]["wraps"]:
+                continue
+            if any(p["req"][0] == "deploy" and p["req"][1] == n and p["start"] > q["start"] for p in r["requests"]):
+                continue
+            if q["req"][0] == "undeploy_all" and not any(p["req"][0] == "deploy" and p["req"][1] == n and p["start"] < q["start"]
+                                                         for p in r["requests"]):
+                continue            # undeploy_all iterates over the deployments registered when it starts
+            if not any(p["req"][0] == "deploy" and p["req"][1] == n and p["start"] < q["start"] and p.get("outcome") == "ok" for p in r["requests"]):
+                continue
+            for o, d in obj.items():
+                if d["name"] == n and "deploy-exit" in d and d["deploy-exit"][0] < q["end"] and d["create"] < q["end"] \
+                        and not ("undeploy-enter" in d and d["undeploy-enter"][0] < q["end"]):
+                    # the connector was registered before the request started?
+                    if d["create"] < q["start"]:
+                        fails.append((KH, f"{q['req'][0]}({n if q['req'][0] == 'undeploy' else ''}) started at {q['start']} (the deployment was "
+                                          f"registered at {d['create']}) and returned ok at {q['end']}, but connector object {o} of {n} is live and "
+                                          f"its undeploy() was never entered: {d}"))
     for o, d in obj.items():
         if "deploy-fail" in d and not deps[d["name"]]["lazy"]:
             for q in r["requests"]:
@@ -205,6 +249,40 @@ def monitor(case: dict, r: dict) -> list[tuple[str, str]]:
                         and q["start"] < d["deploy-fail"][0] < q.get("end", 0)):
                     fails.append(("deploy-ok-although-failed", f"{q}"))
     return fails
+
+
+def _stale_woken_undeploy(ops: list, n: str, task=None) -> bool:
+    """ROOT CAUSE of KF, read off the operation log: some undeploy request blocked on `n`'s event (`ev-block n`); before it ran again
+    another request deleted `n` from the maps and a third one registered `n` anew (`deployments_map.del n` … `deployments_map.set n`);
+    the woken request then went on (`deps.discard n<n`, `deployments_map.del n`) without re-checking — on the NEW incarnation."""
+    blocked = {}                                     # task -> index of its ev-block on n
+    for i, o in enumerate(ops):
+        if o[1] == "ev-block" and o[2] == n:
+            blocked.setdefault(o[0], i)
+        elif o[1] == "deps.discard" and o[2] == f"{n}<{n}" and o[0] in blocked and (task is None or o[0] == task):
+            i0 = blocked[o[0]]
+            dels = [j for j in range(i0, i) if ops[j][1] == "deployments_map.del" and ops[j][2] == n and ops[j][0] != o[0]]
+            if dels and any(ops[j][1] == "deployments_map.set" and ops[j][2] == n and ops[j][0] != o[0] for j in range(dels[0], i)):
+                return True
+    return False
+
+
+def _edge_stripped_by_stale_undeploy(ops: list, n: str, w: str) -> bool:
+    """ROOT CAUSE of KE, read off the operation log: an undeploy request T removed `w` from the maps (`deployments_map.del w`), some OTHER
+    request then re-deployed `w` and added the edge `w ∈ dependency_graph[n]`, and T — resuming after `await connector.undeploy()` — ran its
+    clean-up `dependency_graph[n].discard(w)`: the edge of the NEW incarnation is gone, `n` is no longer protected by the live `w`."""
+    edge = f"{n}<{w}"
+    deleted_by = {}                      # task -> index of its `deployments_map.del w`
+    last_add = None                      # (index, task) of the latest `deps.add n<w`
+    for i, o in enumerate(ops):
+        if o[1] == "deployments_map.del" and o[2] == w:
+            deleted_by[o[0]] = i
+        elif o[1] == "deps.add" and o[2] == edge:
+            last_add = (i, o[0])
+        elif o[1] == "deps.discard" and o[2] == edge and o[0] in deleted_by and last_add is not None:
+            if deleted_by[o[0]] < last_add[0] and last_add[1] != o[0]:
+                return True
+    return False
 
 
 def _ops_between(r: dict, seq_from: int, seq_to: int) -> list:
